@@ -79,6 +79,7 @@ type Pipe struct {
 
 	opened   bool
 	closed   bool
+	session  int // incremented by Reset: a Read begun in an earlier session ends with EOF
 	released bool
 	openAt   time.Time
 	Closes   int
@@ -148,6 +149,21 @@ func (p *Pipe) Close() error {
 	p.cond.Broadcast()
 
 	return p.CloseErr
+}
+
+// Reset prepares the pipe for another session on the same transport object (a driver that is
+// opened again after Close): a new device, nothing pending, no fault, not closed. Counters
+// (Closes, delivered) and the event log carry on.
+func (p *Pipe) Reset(dev Device) {
+	p.mu.Lock()
+	p.session++
+	p.dev = dev
+	p.pending = nil
+	p.closed = false
+	p.FaultAt = -1
+	p.FaultKind = FaultNone
+	p.cond.Broadcast()
+	p.mu.Unlock()
 }
 
 // Release unblocks everything for good (harness teardown).
@@ -247,8 +263,10 @@ func (p *Pipe) Read(n int) ([]byte, error) {
 	p.mu.Lock()
 	defer p.mu.Unlock()
 
+	session := p.session
+
 	for {
-		if p.released {
+		if p.released || p.session != session {
 			return nil, io.EOF
 		}
 
